@@ -104,7 +104,20 @@ class LineMachine:
             return parsed, new
 
     def finish(self, state):
-        """what parse_data returns when the line loop ends in `state`: the statements after the loop, evaluated abstractly"""
+        """what parse_data returns when the line loop ends in `state` (per-exemplar fallback when not in lock step)"""
+        try:
+            return self._finish1(state)
+        except NonUniform as first:
+            from .deriv import _leaves, _project, _zip, _ShapeMismatch
+            if not any(True for _ in _leaves([state])):
+                raise
+            outs = [self._finish1(_project(copy.deepcopy(state), i)) for i in range(6)]
+            try:
+                return _zip(outs)
+            except _ShapeMismatch as sm:
+                raise NonUniform(f"the end of the script is handled in structurally different ways for the exemplars: {sm} ({first})")
+
+    def _finish1(self, state):
         pd = self.model.parser_method("parse_data")
         loop = [i for i, st in enumerate(pd.node.body) if isinstance(st, ast.For) and any(
             isinstance(n, ast.Call) and isinstance(n.func, ast.Attribute) and n.func.attr == "process_line" for n in ast.walk(st))]
@@ -140,6 +153,21 @@ class LineMachine:
         # `for num, self.line in enumerate(lines)`
         lines = [x[1] if isinstance(x, tuple) else x for x in it.iterate(seq)]
         return lines, {r: it.self_attrs.get(r) for r in REGISTERS}
+
+    def run_script(self, script):
+        """parse_data evaluated abstractly from its first to its last statement (its own line loop included) on a script (lock-step
+        exemplar texts or one text): returns (statements handed to the grammar, what parse_data returns)"""
+        pd = self.model.parser_method("parse_data")
+        attrs = dict(self.consts)
+        enc = lambda t: t.encode("unicode_escape")
+        attrs["data"] = W([enc(x) for x in script.ex]) if isinstance(script, W) else enc(script)
+        it = _LineInterp(self.model, self.ctx.grammar.tokens_ns, attrs)
+        it.cur_func = pd
+        try:
+            it.block(pd.node.body, {"__module__": pd.module})
+        except _Return as r:
+            return it.parsed, r.v
+        raise AnalysisError("Parser.parse_data: no return")
 
     def step_each(self, state, line, more_lines=True):
         """one (statements, new state) per exemplar - for line classes the machine does not treat uniformly"""
